@@ -2,7 +2,7 @@
 
 Sub-checks
   deferred          WHFast / SABA / MERCURIUS: twin A (safe_mode=1) vs twin B (safe_mode=0, synchronised only at
-                    generated points).  |A-B| <= K*eps*(steps so far)*scale at every synchronisation point.
+                    generated points).  |A-B| <= K*eps*ops_per_step*(steps so far)*scale at every synchronisation point.
   deferred512       the same for WHFast512 (avx512 build): A synchronises after every step, B at generated points.
   eos               EOS: |A-B| bounded by an estimate of the truncation error of the (approximate) drift.
   keep              keep_unsynchronized=1 (WHFast, SABA): run D with a generated interleaving of outputs between
@@ -38,7 +38,9 @@ RULE = ("Generated planetary systems (2-5 bodies, up to 9 for WHFast512, optiona
 ASSUMPTIONS = [
     "the trajectory is observed as the particle array (x,y,z,vx,vy,vz,m,r,hash bit patterns) and t after reb_simulation_synchronize",
     "safe mode for WHFast512 (which has no safe_mode flag) means synchronising after every step",
-    "rounding tolerance K*eps*steps*scale with scale = max |r_i|, max |v_i| of the safe-mode twin; K=4096 (measured max ratio in evidence stats)",
+    "rounding tolerance K*eps*cond*scale with cond = (elementary operator applications per safe-mode step, counted from the "
+    "scheme: 5 for plain WH ... 221 for corrector 17 + corrector2) * (steps+4), scale = max |r_i| resp. max |v_i| of the "
+    "safe-mode twin, K=16; chosen by looking at the error distribution: max observed ratio 0.07 over seeds 1-8",
     "EOS: the truncation error of the approximate drift of each twin X is estimated by halving its inner step: "
     "err_X <= 2*|X(n)-X(2n)| (valid for any order >= 1 in the asymptotic regime); allowed |A-B| = 2*(err_A+err_B) + rounding floor",
     "generated systems are well separated (no close encounters), bound, |dt| <= P_min/20",
@@ -49,8 +51,8 @@ CLASSES = ["deferred/family:whfast", "deferred/family:saba", "deferred/family:me
 VARIANTS = ["avx512"] if build.has_avx512() else []
 
 EPS = 2.220446049250313e-16
-K_ROUND = float(os.environ.get("C09_K", "16"))
-EOS_SAFETY = float(os.environ.get("C09_EF", "2.0"))
+K_ROUND = 16.0        # slack on eps * (operator applications per step) * (steps+4) * scale; measured max ratio 0.07
+EOS_SAFETY = 2.0
 
 # ---------------------------------------------------------------------------------------
 # strategies
@@ -335,8 +337,6 @@ def run_deferred(case, ctx):
         ctx.stat_max("ratio_x", dx / tolx)
         ctx.stat_max("ratio_v", dv / tolv)
         ctx.stat_max("ratio_%s" % fam, max(dx / tolx, dv / tolv))
-        if os.environ.get("C09_DETAIL"):
-            ctx.stat_max("detail_%s_%s" % (fam, "_".join(str(v) for p_, v in case["cfg"]["set"])), max(dx / tolx, dv / tolv))
         if dx > tolx or dv > tolv:
             raise Violation("%s: deferred synchronisation differs from safe mode after %d steps: dx=%.3g (tol %.3g) "
                             "dv=%.3g (tol %.3g)" % (fam, done, dx, tolx, dv, tolv),
